@@ -20,7 +20,9 @@ Proof.
   apply map_ext_in. intros j Hj. apply in_seq in Hj. cbn [map]. f_equal. rewrite map_map.
   destruct (nth_error tids j) as [t|] eqn:E; [|apply nth_error_None in E; lia].
   rewrite (nth_error_nth _ _ _ E).
-  rewrite Forall_forall in HF. rewrite <- (map_nth_seq t 0%Z) at 2. rewrite (HF t) by (eapply nth_error_In; eassumption).
+  rewrite Forall_forall in HF.
+  assert (Ht : length t = arity) by (apply HF; eapply nth_error_In; eassumption).
+  transitivity (map (fun i => nth i t 0%Z) (seq 0 (length t))); [|apply map_nth_seq]. rewrite Ht.
   apply map_ext. intros i. unfold column. rewrite (nth_map_error (fun r => nth i r 0%Z)), E. reflexivity.
 Qed.
 
@@ -43,7 +45,7 @@ Qed.
 Lemma view_attr_lengths v : view_ok v -> screen_wf (v_parent v) ->
   length (view_sids v) = length (np_where (v_sel v)) /\ length (view_tids v) = length (np_where (v_sel v)).
 Proof.
-  intros Hok (HS & _). unfold view_ok in Hok. unfold view_sids, view_tids.
+  intros Hok (HS & _). unfold view_ok, screen_size in *. unfold view_sids, view_tids.
   split; apply select_length; congruence.
 Qed.
 
@@ -178,7 +180,8 @@ Lemma get_parent_inv ps k p : get_parent ps k = Ok p ->
   nth_error ps k = Some p /\ nth k ps empty_screen = p /\ (Forall screen_wf ps -> screen_wf p).
 Proof.
   unfold get_parent. destruct (nth_error ps k) as [q|] eqn:E; [|discriminate]. intros [= <-].
-  repeat split; [now apply nth_error_nth|]. intros H. rewrite Forall_forall in H. apply H. eapply nth_error_In; eassumption.
+  split; [reflexivity|]. split; [now apply nth_error_nth|].
+  intros H. rewrite Forall_forall in H. apply H. eapply nth_error_In; eassumption.
 Qed.
 
 Lemma view_in_parent ps v k : view_in ps v k ->
